@@ -11,6 +11,7 @@ import Driver.ProofCk
 import Driver.Containers
 import Driver.Displaced
 import Driver.Closure
+import Driver.Atom
 open Driver
 
 structure St where
@@ -37,6 +38,7 @@ def dispatch (s : St) (line : String) : St × String :=
   | "cn" :: rest => (s, cnStep rest)
   | "dt" :: rest => let (p, o) := dtStep s.dt rest; ({ s with dt := p }, o)
   | "cl" :: rest => (s, clStep rest)
+  | "at" :: rest => (s, atStep rest)
   | _ => (s, "bad-op")
 
 partial def loop (h : IO.FS.Stream) (out : IO.FS.Stream) (s : St) : IO Unit := do
